@@ -40,7 +40,7 @@ ASSUMPTIONS = [
     "fp->float->fp identity is required only when the fixed-point value "
     "divided by 2**n_frac is exactly representable in float64",
 ]
-FLOORS = {"numpy_invalid_raises": 300, "large_array_layout": 40, "converter_reused": 2000, "scalar_exact": 5000, "numpy_vs_scalar": 3000,
+FLOORS = {"numpy_invalid_raises": 300, "large_array_layout": 40, "converter_reused": 2000, "same_array_new_contents": 2000, "scalar_exact": 5000, "numpy_vs_scalar": 3000,
           "deprecated_vs_scalar": 3000, "inverse_exact": 500,
           "saturated_high": 200, "saturated_low": 200}
 SHARDS = {"quick": 16, "thorough": 64}
@@ -252,6 +252,49 @@ def run(case, ctx):
                       "numpy-converter-reuse",
                       "%s through the same converter object: %r, exact %r" %
                       (label, o2.reshape(-1).tolist()[:6], want2[:6]), **fmt)
+        # the same array OBJECT again after its owner changed what it
+        # holds - directly, or (for a read-only view handed out by the
+        # owner) through the array it is a view of
+        if len(vals) >= 2:
+            with warnings.catch_warnings():
+                warnings.simplefilter("ignore")
+                for how in ("writeable", "readonly-view", "flag-toggled"):
+                    base = np.array(vals, dtype=np.float64)
+                    if how == "readonly-view":
+                        a3 = base.view()
+                        a3.flags.writeable = False
+                    else:
+                        a3 = base
+                        if how == "flag-toggled":
+                            a3.flags.writeable = False
+                    first = c(a3)
+                    check([int(x) for x in first.tolist()] == exact,
+                          "numpy-vs-scalar", "%s array" % how, **fmt)
+                    if how == "flag-toggled":
+                        a3.flags.writeable = True
+                    base[:] = base[::-1].copy()
+                    if how == "flag-toggled":
+                        a3.flags.writeable = False
+                    o3 = c(a3)
+                    ctx.hit("same_array_new_contents")
+                    check([int(x) for x in o3.tolist()] == exact[::-1],
+                          "numpy-converter-reuse",
+                          "the same %s array object converted again after "
+                          "its contents were changed: %r, exact %r" %
+                          (how, o3.tolist()[:6], exact[::-1][:6]), **fmt)
+                k3 = T.NumpyFixToFloatConverter(nf)
+                ibase = np.array(case["fps"], dtype=want_dtype)
+                if ibase.size >= 2:
+                    iv = ibase.view()
+                    iv.flags.writeable = False
+                    k3(iv)
+                    ibase[:] = ibase[::-1].copy()
+                    f3 = k3(iv)
+                    check(f3.tolist() == [g(v) for v in case["fps"]][::-1],
+                          "numpy-fix-to-float",
+                          "the same read-only view converted again after "
+                          "its base was changed: %r" % (f3.tolist()[:6],),
+                          **fmt)
         if case.get("big"):
             b = case["big"]
             pick = np.random.RandomState(b["seed"] % (1 << 32)).randint(
